@@ -56,6 +56,8 @@ type gop struct {
 	digK     byte // '-' none, 'd' digest of Data(digName,digCid), 'b' bogus
 	digNm    []int
 	digCid   int
+	digLen   int // 't': length of the truncated digest
+	lp       int // data: 0 bare Data; 1 LpPacket; 2 LpPacket with PIT token; 3 with congestion mark; 4 with incoming face id
 	life     int // ms, -1 = default lifetime
 	nest     *nestSpec
 	cid      int
@@ -133,6 +135,8 @@ func (g gop) String() string {
 		dig := "-"
 		if g.digK == 'd' {
 			dig = "d:" + nameTxt(g.digNm) + ":" + strconv.Itoa(g.digCid)
+		} else if g.digK == 't' {
+			dig = "t:" + nameTxt(g.digNm) + ":" + strconv.Itoa(g.digCid) + ":" + strconv.Itoa(g.digLen)
 		} else if g.digK == 'b' {
 			dig = "b:" + strconv.Itoa(g.digCid)
 		}
@@ -154,14 +158,20 @@ func (g gop) String() string {
 		}
 		return fmt.Sprintf("express n=%s cbp=%s dig=%s life=%s nest=%s%s", nameTxt(g.name), b01(g.cbp), dig, lifeTxt(g.life), nest, rep)
 	case "data":
-		if g.delay > 0 {
-			return fmt.Sprintf("data n=%s cid=%d delay=%d", nameTxt(g.name), g.cid, g.delay)
+		lp := ""
+		if g.lp > 0 {
+			lp = fmt.Sprintf(" lp=%d", g.lp)
 		}
-		return fmt.Sprintf("data n=%s cid=%d", nameTxt(g.name), g.cid)
+		if g.delay > 0 {
+			return fmt.Sprintf("data n=%s cid=%d delay=%d%s", nameTxt(g.name), g.cid, g.delay, lp)
+		}
+		return fmt.Sprintf("data n=%s cid=%d%s", nameTxt(g.name), g.cid, lp)
 	case "nack":
 		dig := "-"
 		if g.digK == 'd' {
 			dig = "d:" + nameTxt(g.digNm) + ":" + strconv.Itoa(g.digCid)
+		} else if g.digK == 't' {
+			dig = "t:" + nameTxt(g.digNm) + ":" + strconv.Itoa(g.digCid) + ":" + strconv.Itoa(g.digLen)
 		} else if g.digK == 'b' {
 			dig = "b:" + strconv.Itoa(g.digCid)
 		}
@@ -196,6 +206,14 @@ func parseDig(v string, g *gop) {
 		g.digK = 'd'
 		g.digNm = parseName(p[1])
 		g.digCid, _ = strconv.Atoi(p[2])
+	} else if strings.HasPrefix(v, "t:") {
+		p := strings.Split(v, ":")
+		if len(p) == 4 {
+			g.digK = 't'
+			g.digNm = parseName(p[1])
+			g.digCid, _ = strconv.Atoi(p[2])
+			g.digLen, _ = strconv.Atoi(p[3])
+		}
 	} else if strings.HasPrefix(v, "b:") {
 		g.digK = 'b'
 		g.digCid, _ = strconv.Atoi(v[2:])
@@ -251,6 +269,8 @@ func parseGop(line string) (gop, bool) {
 			g.delay, _ = strconv.Atoi(v)
 		case "ns":
 			g.ns, _ = strconv.Atoi(v)
+		case "lp":
+			g.lp, _ = strconv.Atoi(v)
 		case "sendfail":
 			g.sendFail = v == "1"
 		case "during":
@@ -347,6 +367,7 @@ type world struct {
 	iidWire     map[int][]byte
 	iidTok      map[int]string
 	curHid      int
+	curIntWire  []byte
 	curIid      int
 }
 
@@ -403,8 +424,29 @@ func compOf(k int) enc.Component {
 		return enc.Component{Typ: enc.TypeGenericNameComponent, Val: []byte{}}
 	case 7:
 		return enc.Component{Typ: enc.TypeGenericNameComponent, Val: []byte{0x08, 0x01, 'a'}}
+	case 8: // a parameters-digest component with a zero-length value (only ever in Data / Nack names)
+		return enc.Component{Typ: enc.TypeParametersSha256DigestComponent, Val: []byte{}}
+	case 9: // the parameters digest of the ApplicationParameters "p" (what MakeInterest appends for them)
+		return paramsComp()
 	}
 	return enc.NewStringComponent(enc.TypeGenericNameComponent, genericComps[k])
+}
+
+var paramsCompOnce sync.Once
+var paramsCompVal enc.Component
+
+func paramsComp() enc.Component {
+	paramsCompOnce.Do(func() {
+		i, err := spec.Spec{}.MakeInterest(enc.Name{enc.NewStringComponent(enc.TypeGenericNameComponent, "x")}, &ndn.InterestConfig{}, enc.Wire{[]byte("p")}, nil)
+		if err != nil {
+			panic(err)
+		}
+		paramsCompVal = i.FinalName[len(i.FinalName)-1].Clone()
+		if paramsCompVal.Typ != enc.TypeParametersSha256DigestComponent {
+			panic("MakeInterest did not append a parameters digest")
+		}
+	})
+	return paramsCompVal
 }
 
 func mkName(n []int) enc.Name {
@@ -434,9 +476,17 @@ func dataWire(name []int, cid int) []byte {
 	return d.Wire.Join()
 }
 
-func digestComp(kind byte, nm []int, cid int) enc.Component {
+// digestComp builds an ImplicitSha256Digest component:
+//
+//	'd'  the digest of Data(nm, cid)                                  (32 bytes, matches that Data)
+//	't'  the first dlen bytes of that digest (dlen 33: digest + 00)   (near miss of every length: 0, 1, 31, 33)
+//	'b'  a bogus one: cid 0..9 32 bytes; 10 zero-length (empty, non-nil value, what the parsers produce); 11 one byte;
+//	     12 31 bytes; 13 33 bytes; 14 zero-length with a nil value (same wire as 10)
+//
+// "A digest is requested" is decided by the PRESENCE of the component, whatever its value.
+func digestComp(kind byte, nm []int, cid int, dlen int) enc.Component {
 	var sum [32]byte
-	if kind == 'd' {
+	if kind == 'd' || kind == 't' {
 		sum = sha256.Sum256(dataWire(nm, cid))
 	} else {
 		for i := range sum {
@@ -444,15 +494,32 @@ func digestComp(kind byte, nm []int, cid int) enc.Component {
 		}
 		sum[0] = byte(cid)
 	}
-	return enc.Component{Typ: enc.TypeImplicitSha256DigestComponent, Val: sum[:]}
+	val := append([]byte{}, sum[:]...)
+	if kind == 't' {
+		val = append(val, 0)[:dlen]
+	} else if kind == 'b' {
+		switch cid {
+		case 10:
+			val = []byte{}
+		case 11:
+			val = val[:1]
+		case 12:
+			val = val[:31]
+		case 13:
+			val = append(val, 0x5a)
+		case 14:
+			val = nil
+		}
+	}
+	return enc.Component{Typ: enc.TypeImplicitSha256DigestComponent, Val: val}
 }
 
 // express performs Engine.Express for (name, cbp, dig, life) and returns the trace text of the operation.
-func (w *world) express(name []int, cbp bool, digK byte, digNm []int, digCid int, life int, nest *nestSpec) string {
+func (w *world) express(name []int, cbp bool, digK byte, digNm []int, digCid int, digLen int, life int, nest *nestSpec) string {
 	fn := mkName(name)
 	digTxt := "-"
 	if digK != '-' {
-		dc := digestComp(digK, digNm, digCid)
+		dc := digestComp(digK, digNm, digCid, digLen)
 		fn = append(fn, dc)
 		digTxt = strconv.Itoa(w.key(dc))
 	}
@@ -461,11 +528,20 @@ func (w *world) express(name []int, cbp bool, digK byte, digNm []int, digCid int
 		d := time.Duration(life) * time.Millisecond
 		cfg.Lifetime = &d
 	}
-	enci, err := spec.Spec{}.MakeInterest(fn, cfg, nil, nil)
+	var appParam enc.Wire
+	if len(name) > 0 && name[len(name)-1] == 9 && digK == '-' {
+		// the Interest carries ApplicationParameters; MakeInterest appends their digest component itself
+		fn = mkName(name[:len(name)-1])
+		appParam = enc.Wire{[]byte("p")}
+	}
+	enci, err := spec.Spec{}.MakeInterest(fn, cfg, appParam, nil)
 	if err != nil {
 		panic(err)
 	}
-	if len(fn) == 0 { // Express refuses an empty name; no Interest id is consumed
+	if appParam != nil && !enci.FinalName.Equal(mkName(name)) {
+		panic("unexpected final name " + enci.FinalName.String())
+	}
+	if len(fn) == 0 && appParam == nil { // Express refuses an empty name; no Interest id is consumed
 		if err := w.eng.Express(enci, func(ndn.ExpressCallbackArgs) { panic("callback of a refused Express") }); err != nil {
 			w.mu.Lock()
 			w.outs = append(w.outs, "ret err")
@@ -510,7 +586,7 @@ func (w *world) express(name []int, cbp bool, digK byte, digNm []int, digCid int
 			// Callbacks of timers that fire at the same instant run in parallel goroutines: make "take the next Interest
 			// id, call Express, record the call" one step, so that ids, PIT insertion order and the trace agree.
 			w.exprMu.Lock()
-			txt := w.express(nest.name, nest.cbp, '-', nil, 0, nest.life, sub)
+			txt := w.express(nest.name, nest.cbp, '-', nil, 0, 0, nest.life, sub)
 			w.mu.Lock()
 			w.nested = append(w.nested, fmt.Sprintf("nop %s by=%d t=%d", txt, pid, t))
 			w.mu.Unlock()
@@ -538,6 +614,9 @@ func (w *world) handler(hid int) ndn.InterestHandler {
 		iid := w.curIid
 		w.replies[iid] = args.Reply
 		w.outs = append(w.outs, fmt.Sprintf("handler %d %d", hid, args.Deadline.Sub(w.start).Nanoseconds()))
+		if w.curIntWire != nil && string(args.RawInterest.Join()) != string(w.curIntWire) {
+			w.outs = append(w.outs, "handler-raw-interest-is-not-the-bare-interest")
+		}
 	}
 }
 
@@ -711,7 +790,7 @@ func runCase(t *testing.T, ops []gop, cfg string) []string {
 				} else if g.replyK == 'n' && (len(g.name) > 0 || g.digK != '-') {
 					fn := mkName(g.name)
 					if g.digK != '-' {
-						fn = append(fn, digestComp(g.digK, g.digNm, g.digCid))
+						fn = append(fn, digestComp(g.digK, g.digNm, g.digCid, g.digLen))
 					}
 					lt := 4 * time.Second
 					enci, err := spec.Spec{}.MakeInterest(fn, &ndn.InterestConfig{Lifetime: &lt}, nil, nil)
@@ -729,14 +808,14 @@ func runCase(t *testing.T, ops []gop, cfg string) []string {
 				if g.during != nil && len(g.during.name) > 0 && (len(g.name) > 0 || g.digK != '-') {
 					du := g.during
 					w.face.during = func() {
-						txt := w.express(du.name, du.cbp, '-', nil, 0, du.life, nil)
+						txt := w.express(du.name, du.cbp, '-', nil, 0, 0, du.life, nil)
 						w.mu.Lock()
 						w.nested = append(w.nested, "nop "+txt)
 						w.mu.Unlock()
 					}
 				}
 				nOuts := len(w.outs)
-				opTxt = w.express(g.name, g.cbp, g.digK, g.digNm, g.digCid, g.life, g.nest)
+				opTxt = w.express(g.name, g.cbp, g.digK, g.digNm, g.digCid, g.digLen, g.life, g.nest)
 				w.face.reply, w.face.fail, w.face.during = nil, false, nil
 				if len(w.outs) > nOuts && w.outs[len(w.outs)-1] == "ret err" && strings.HasPrefix(opTxt, "express ") && !strings.HasPrefix(opTxt, "express - ") {
 					opTxt = "expressfail " + strings.TrimPrefix(opTxt, "express ")
@@ -753,6 +832,25 @@ func runCase(t *testing.T, ops []gop, cfg string) []string {
 				sum := sha256.Sum256(wire)
 				dd := enc.Component{Typ: enc.TypeImplicitSha256DigestComponent, Val: sum[:]}
 				opTxt = fmt.Sprintf("data %s %d", w.keysOf(mkName(g.name)), w.key(dd))
+				// delivery inside a link-layer frame: the implicit digest and the raw bytes handed to the callbacks are those
+				// of the bare Data (the LpPacket fragment), whatever headers the frame carries
+				if g.lp > 0 {
+					lpp := &spec.LpPacket{Fragment: enc.Wire{wire}}
+					switch g.lp {
+					case 2:
+						lpp.PitToken = []byte{9, 8, 7, 6}
+					case 3:
+						cm := uint64(1)
+						lpp.CongestionMark = &cm
+					case 4:
+						fid := uint64(261)
+						lpp.IncomingFaceId = &fid
+					}
+					pkt := &spec.Packet{LpPacket: lpp}
+					e := spec.PacketEncoder{}
+					e.Init(pkt)
+					wire = e.Encode(pkt).Join()
+				}
 				t0 := w.nowMs()
 				if cfg != "dummy" {
 					w.cancelDelay.Store(int64(g.delay))
@@ -768,7 +866,7 @@ func runCase(t *testing.T, ops []gop, cfg string) []string {
 			case "nack":
 				fn := mkName(g.name)
 				if g.digK != '-' {
-					fn = append(fn, digestComp(g.digK, g.digNm, g.digCid))
+					fn = append(fn, digestComp(g.digK, g.digNm, g.digCid, g.digLen))
 				}
 				lt := 4 * time.Second
 				enci, err := spec.Spec{}.MakeInterest(fn, &ndn.InterestConfig{Lifetime: &lt}, nil, nil)
@@ -819,6 +917,7 @@ func runCase(t *testing.T, ops []gop, cfg string) []string {
 					panic(err)
 				}
 				wire := enci.Wire.Join()
+				w.curIntWire = wire
 				if g.tok != "-" {
 					tok, _ := hexDecode(g.tok)
 					pkt := &spec.Packet{LpPacket: &spec.LpPacket{PitToken: tok, Fragment: enci.Wire}}
@@ -956,6 +1055,19 @@ func (g *genr) name(alpha, maxDepth int) []int {
 	return n
 }
 
+func stripParams(n []int) []int {
+	r := make([]int, 0, len(n))
+	for _, k := range n {
+		if k != 8 && k != 9 {
+			r = append(r, k)
+		}
+	}
+	return r
+}
+
+// lengths 0 (empty value), 1, 31, 33, and 0 with a nil value
+var bogusShapes = []int{10, 11, 12, 13, 14}
+
 var lifetimes = []int{0, 1, 3, 5, 5, 8, 10, 10, 12, 15, 20, 20, 30, 50, 100, -1}
 var advances = []int{0, 1, 1, 2, 4, 5, 5, 6, 9, 10, 10, 11, 14, 15, 16, 20, 25, 30, 60, 110}
 
@@ -1047,18 +1159,33 @@ func (g *genr) genCase() []gop {
 				} else {
 					o.digK, o.digCid = 'b', g.r.Intn(3)
 				}
+				// value shapes: a digest component of length 0, 1, 31, 33 (bogus, or a truncated/extended real digest)
+				switch g.r.Intn(6) {
+				case 0:
+					o.digK, o.digCid = 'b', g.pick(bogusShapes)
+				case 1:
+					if o.digK == 'd' {
+						o.digK, o.digLen = 't', g.pick([]int{0, 1, 31, 33})
+					}
+				}
+			}
+			// parameters-digest components: never inside an expressed name (MakeInterest refuses), sometimes the real one at
+			// its end (an Interest with ApplicationParameters)
+			o.name = stripParams(o.name)
+			if o.digK == '-' && g.r.Intn(20) == 0 {
+				o.name = append(append([]int{}, o.name...), 9)
 			}
 			if g.r.Intn(40) == 0 {
 				o.name = nil // root node: only legal with a digest
-				o.digK, o.digCid = 'b', g.r.Intn(3)
+				o.digK, o.digCid = 'b', g.pick(append([]int{0, 1, 2}, bogusShapes...))
 			}
 			if g.nested && g.r.Intn(3) == 0 {
 				// Timers that fire at the same virtual instant run in goroutines of their own in no defined order; with
 				// re-expressed Interests that order can become observable. The runner explores the admissible orders.
 				nl := g.pick([]int{1, 2, 5, 9, 10, 11, 12, 15, 20, 30, 50, 100})
-				o.nest = &nestSpec{name: o.name, cbp: g.r.Intn(2) == 0, life: nl, depth: 1 + g.r.Intn(3)}
+				o.nest = &nestSpec{name: stripParams(o.name), cbp: g.r.Intn(2) == 0, life: nl, depth: 1 + g.r.Intn(3)}
 				if g.r.Intn(2) == 0 {
-					o.nest.name = related()
+					o.nest.name = stripParams(related())
 				}
 				if len(o.nest.name) == 0 {
 					o.nest.name = []int{1}
@@ -1085,9 +1212,9 @@ func (g *genr) genCase() []gop {
 				// the face fails to send, and/or another Interest (mostly for the same PIT node) is expressed while Send is on the stack
 				o.sendFail = g.r.Intn(3) > 0
 				if g.r.Intn(3) > 0 {
-					o.during = &nestSpec{name: o.name, cbp: g.r.Intn(2) == 0, life: g.pick(lifetimes[:len(lifetimes)-1])}
+					o.during = &nestSpec{name: stripParams(o.name), cbp: g.r.Intn(2) == 0, life: g.pick(lifetimes[:len(lifetimes)-1])}
 					if g.r.Intn(4) == 0 {
-						o.during.name = related()
+						o.during.name = stripParams(related())
 					}
 					if len(o.during.name) == 0 {
 						o.during.name = []int{1}
@@ -1110,6 +1237,12 @@ func (g *genr) genCase() []gop {
 			if len(o.name) == 0 {
 				o.name = []int{1}
 			}
+			if g.r.Intn(3) == 0 {
+				o.lp = 1 + g.r.Intn(4)
+			}
+			if g.r.Intn(25) == 0 {
+				o.name = append(stripParams(o.name), g.pick([]int{8, 9, 9}))
+			}
 			ops = append(ops, o)
 		case x < 68:
 			o := gop{kind: "nack", name: related(), reason: g.pick([]int{50, 100, 150}), digK: '-'}
@@ -1119,6 +1252,8 @@ func (g *genr) genCase() []gop {
 			if len(datas) > 0 && g.r.Intn(6) == 0 {
 				d := datas[g.r.Intn(len(datas))]
 				o.digK, o.digNm, o.digCid = 'd', d.nm, d.cid
+			} else if g.r.Intn(10) == 0 {
+				o.digK, o.digCid = 'b', g.pick(bogusShapes)
 			}
 			ops = append(ops, o)
 		case x < 90 || !handlersOn:
